@@ -18,7 +18,7 @@ ASSUMPTIONS = ['builder meshes contain no duplicate or degenerate triangles (the
                'after a bare SetShapePartitions only the cover-once part is checked (vertex maps are completed lazily at save/update)',
                'DeletePartitions is followed by the documented reassignment of orphaned triangles before the cover is checked']
 EXPECTED_PROBES = ['multi_partition', 'bone_limit_split_or_shared_slot', 'label_unassigned', 'label_out_of_range', 'partition_left_empty',
-                   'partition_emptied_and_removed', 'partitions_deleted', 'restart_after_rebuild']
+                   'partition_emptied_and_removed', 'partitions_deleted', 'restart_after_rebuild', 'rebuilt_after_triangles_were_replaced']
 
 
 def gen_plan(seed, i, tier):
@@ -37,10 +37,12 @@ def gen_plan(seed, i, tier):
     steps = []
     for _ in range(rng.range(1, 8)):
         op = rng.weighted([('SetPartitions', 5), ('UpdateSkinPartitions', 5), ('SetDefaultPartition', 1), ('DeletePartitions', 2),
-                           ('RemoveEmptyPartitions', 2), ('DeleteVerts', 2), ('Restart', 2)])
+                           ('RemoveEmptyPartitions', 2), ('DeleteVerts', 2), ('Restart', 2), ('AddTriangles', 2)])
         st = {'op': op, 'shape': rng.below(4)}
         if op == 'SetPartitions':
             st.update({'nparts': rng.below(6), 'salt': rng.below(1 << 30), 'unassigned': rng.chance(0.3), 'oor': rng.chance(0.2), 'leave_empty': rng.chance(0.3)})
+        elif op == 'AddTriangles':
+            st['salt'] = rng.below(1 << 30)
         elif op == 'DeletePartitions':
             st['which'] = rng.below(1 << 8)
         elif op == 'DeleteVerts':
@@ -50,6 +52,8 @@ def gen_plan(seed, i, tier):
         elif op == 'Restart':
             st.update({'save': rng.choice(['raw', 'raw', 'default']), 'dtor': rng.chance(0.8)})
         steps.append(st)
+        if op == 'AddTriangles':
+            steps.append({'op': 'UpdateSkinPartitions', 'shape': st['shape']})   # new triangles are followed by the rebuild that has to place them
     if rng.chance(0.7):
         steps.append({'op': 'UpdateSkinPartitions', 'shape': steps[-1]['shape']})
     if rng.chance(0.6):
